@@ -131,6 +131,8 @@ def hunt_one(ctx, name, o, d, stats):
         if ctx.match_known(fp) is not None:
             ctx.violation(fp, msg, {})
             continue
+        if stats["issue:" + fp] > 1:
+            continue                # already reported (and shrunk) once in this run
 
         def fails(w, fp=fp):
             return any(f == fp for f, _ in layout.check_layout(real_dumps(w, o), o))
